@@ -431,3 +431,27 @@ Example c02_mgr_scale_nonvacuous :
   /\ scaled_min 211111111118 33333333340 211111111118 = 33333333339
   /\ scaled_min 105555555559 33333333340 211111111118 = 16666666669.
 Proof. vm_compute. repeat split; reflexivity. Qed.
+
+(* ---- 15. label edits (allow-lent / is-parent, same parent) take resetQuotaNoLock: every calculator
+        is rebuilt from the cleared QuotaInfos and every quota's own request is replayed bottom-up.
+        The reset re-establishes the invariant from the tree shape alone (so c02_mgr_calculators_agree,
+        c02_mgr_refresh_division and c02_mgr_refresh_scaled_min above hold for histories WITH label
+        edits — [mrun] ranges over all ops) ---- *)
+From Verif Require Import C02.Mgr_Proofs_Reset.
+
+Theorem c02_mgr_reset_rebuilds : forall st, pre_inv st -> minv (reset st).
+Proof. exact reset_inv. Qed.
+Print Assumptions c02_mgr_reset_rebuilds.
+
+(* non-vacuity / regression of seeded/C02-m6: total 100; team (parent, lends, min 60) with two
+   non-lending children without pods (min 20 each); batch (min 40) asks 96; misc is created as a leaf
+   and relabelled as a parent: the runtimes 40 / 20 / 20 / 60 / 0 are the same before and after *)
+Definition mgr_reset_ex : list Z :=
+  [5; 8;  3;0;100;0;0;0;0;  0;1;0;3;96;60;0;  0;2;1;0;96;20;0;  0;3;1;0;96;20;0;  0;4;0;2;96;40;0;
+          0;5;0;2;96;0;0;  2;4;0;96;0;0;0;  0;5;0;3;96;0;0].
+
+Example c02_mgr_reset_nonvacuous :
+  firstn 5 (skipn 30 (mgr_run_case mgr_reset_ex)) = [40; 20; 20; 60; 0]
+  /\ skipn 35 (mgr_run_case mgr_reset_ex) = [40; 20; 20; 60; 0]
+  /\ mgr_prop_case mgr_reset_ex (mgr_run_case mgr_reset_ex) = 0.
+Proof. vm_compute. repeat split; reflexivity. Qed.
